@@ -3048,7 +3048,7 @@ def check_C11(tier):
 
 GEO_TABLES = ["knight", "king", "pseudoB", "pseudoR", "pseudoQ", "filesWest", "filesEast", "fileWest", "fileEast",
               "ranksNorth", "ranksSouth", "neighbours", "center", "castle", "pawn", "passed", "ray", "to", "shift",
-              "between", "dist"]
+              "between", "dist", "fileBb", "rankBb", "colourBb", "castleK", "castleQ"]
 
 
 def art_geometry(tier):
